@@ -10,6 +10,17 @@ def _file_storage(scale=30):
     return one("native-dbg", "mon-rt", "rt_graph", label="native-dbg-file-storage", set={"storage": "file"}, scale=scale)
 
 
+def _vm_policy():
+    # real VmPolicy devices (crypto engine, envelope FFI, policy VM) against a semantic model of the policy
+    return one("native-dbg", "mon-e2e", "conv_vm", label="native-dbg-vm-policy")
+
+
+_VM_TEXT = (" A vm-policy step runs worlds of 3-5 real VmPolicy devices (DefaultEngine, keystores, signing policy with counter commands of priority 50/70/finalize "
+            "and note commands) that act in bursts and exchange random ancestor-closed subsets: after the actions and the deliveries of every round each replica's decoded "
+            "fact dump must equal a reference that braids the stored DAG by (declared priority, id) and applies the operations recorded at the action calls; every 5 rounds "
+            "all replicas and a late joiner sync to a fixed point and must agree on heads, commands, byte-equal fact dumps and hello heads.")
+
+
 def rtg(pid, technique, text, extra_steps=None):
     reg(pid, native("mon-rt", "rt_graph") + (extra_steps or []), technique, text, _NOTE, design_ref=f"DESIGN.md 3.1, 4 ({pid})")
 
@@ -18,16 +29,16 @@ rtg("C01", "differential replay of delivery histories (and sync topologies) agai
     "Each generated command DAG is delivered to fresh replicas through >=4 different histories (order, batching, flushes, commit points, duplicates); "
     "heads, full fact dump and hello head must agree pairwise and with the reference; replicas that act and replicas that receive the result must agree too; "
     "a second step syncs 2-5 replicas holding different down-sets pairwise in random order to quiescence and compares them the same way. "
-    + _G,
-    extra_steps=one("native-dbg", "mon-rt", "rt_sync", label="native-dbg-sync-topologies", scale=50) + _file_storage())
+    + _G + _VM_TEXT,
+    extra_steps=one("native-dbg", "mon-rt", "rt_sync", label="native-dbg-sync-topologies", scale=50) + _file_storage() + _vm_policy())
 rtg("C02", "online check of the policy event log per sink transaction + seq-list fact, incl. spill-forcing graphs",
     "Every braid the runtime runs is observed through the audit policy: no duplicate, ancestors first, never a merge, applied set equals the reference region; "
     "the order-sensitive seq fact lists each non-quiet command once. Large cases overflow the braid buffer and convergence blocks into a counting spill (counters must be > 0).",
     extra_steps=_file_storage(100))
 rtg("C03", "reference-model comparison of every committed fact state and every observed braid order",
     "After every commit the fact dump equals the reference braid (priority,id ties; lone-strand start; finalize first) for the frontier, independent of the segment layout each history produced; "
-    "the histories are replayed on the in-memory and on the file-backed linear storage.",
-    extra_steps=_file_storage())
+    "the histories are replayed on the in-memory and on the file-backed linear storage." + _VM_TEXT,
+    extra_steps=_file_storage() + _vm_policy())
 rtg("C04", "state snapshot before/inside/after an action on multi-head graphs",
     "On committed multi-head states the action's view must equal the fact cache, the collapse must emit no effect, and the advertised hello head must be the merge command the collapse wrote (located afterwards).")
 rtg("C05", "reference predicate (two incomparable finalize commands) vs observed ParallelFinalize, with unchanged-state check",
